@@ -9,6 +9,8 @@
 //	zero      the group is idle: the call must return nil at once (within 0.7 d);
 //	positive  one Inc, never released: the call must return its deadline's error, not before
 //	          0.8 d and not after 2 d;
+//	cancel    (WaitCTX) one Inc, never released; the context carries a deadline 10 d away and is
+//	          cancelled by its owner at d/2: the context's error right then (within [0.4 d, 2 d]);
 //	rearm     one Inc, then release + re-arm cycles at 0.5 d, 1.0 d, 1.5 d, ...: Dec (count 0, the
 //	          wait channel is closed, the waiter's select wakes), the waiter is HELD at its next
 //	          yield point - the instrumented code calls the hook before every shared-memory
@@ -111,6 +113,12 @@ func runDeadline(api, scenario string, d time.Duration, firstPc int) dlCase {
 		var err error
 		if api == "WaitTimeout" {
 			err = wg.WaitTimeout(d)
+		} else if scenario == "cancel" {
+			// a context that carries a (far) deadline and is cancelled early by its owner
+			ctx, cancel := context.WithTimeout(context.Background(), 10*d)
+			defer cancel()
+			time.AfterFunc(d/2, cancel)
+			err = wg.WaitCTX(ctx)
 		} else {
 			ctx, cancel := context.WithTimeout(context.Background(), d)
 			defer cancel()
@@ -191,6 +199,8 @@ func dlViolates(c dlCase) bool {
 		return c.Result != 0 || 10*c.ElapsedMs > 7*c.DMs
 	case "positive":
 		return c.Result != 1 || 10*c.ElapsedMs < 8*c.DMs || c.ElapsedMs > 2*c.DMs
+	case "cancel":
+		return c.Result != 1 || 10*c.ElapsedMs < 4*c.DMs || c.ElapsedMs > 2*c.DMs
 	default:
 		return c.Result == 2 || c.ElapsedMs > 2*c.DMs
 	}
@@ -201,7 +211,7 @@ func gDl(c dlCase) string {
 	if c.API == "WaitCTX" {
 		api = 1
 	}
-	sc := map[string]int{"zero": 0, "positive": 1, "rearm": 2}[c.Scenario]
+	sc := map[string]int{"zero": 0, "positive": 1, "rearm": 2, "cancel": 3}[c.Scenario]
 	held := 0
 	for _, cy := range c.Cycles {
 		if cy.Held {
@@ -220,7 +230,10 @@ func deadlineMode(outp string, dMs int) {
 		pc   int
 	}
 	for _, api := range []string{"WaitTimeout", "WaitCTX"} {
-		for _, s := range []sc{{"zero", 0}, {"positive", 0}, {"rearm", 50}, {"rearm", 25}, {"rearm", 85}} {
+		for _, s := range []sc{{"zero", 0}, {"positive", 0}, {"rearm", 50}, {"rearm", 25}, {"rearm", 85}, {"cancel", 0}} {
+			if s.name == "cancel" && api != "WaitCTX" {
+				continue
+			}
 			best := runDeadline(api, s.name, d, s.pc)
 			best.Attempts = 1
 			// a measurement between 2 d and 3 d may be the machine, not the code: measured again
